@@ -163,7 +163,8 @@ CHECKS = {
              "beyond, rationals); the compiled types' label bytes, sizeof, strlen, NUL are read out and TLC judges every record by string "
              "equality and size = length + 1; IToA/UIToA digits against BigInt; streamed quantities (8-bit reps print numbers).",
         note="Own labels are inputs.  A difference that is only a reordering of product factors is MODEL-DRIFT, not a violation.  CommonUnit "
-             "labels (EQUIV{...}) are not yet in the grammar model.",
+             "labels (EQUIV{...}): every printed element must be the grammar's label of an input scaled to the common unit (Trace_CULabels.tla), "
+             "elements may be any non-empty duplicate-free subset (the library drops redundant constituents).",
         technique="TLA+ label grammar evaluated by TLC on read-outs of the real labels (trace validation by string equality)", ref="6/C18"),
     "C16": dict(
         text="Availability of a constant in (unit, type) is the C11 predicate applied to the exact ratio C/u (MagBig.tla).  For the 9 library "
